@@ -103,11 +103,11 @@ def renderedLine (left inner right : Bytes) (colWidths : List Nat) (cellStrs : L
     pure (if inner != [] then [s, inner] else [s]))
   let fields := fields ++ cols.flatten
   let fields ←
-    if right != [] && inner != [] then
-      (if fields.length = 0 then .error (.panic "emit.fields[len-1]") else pure (fields.dropLast ++ [right]))
+    -- the trailing inner divider (if one was written) becomes the right border, or goes; with no field
+    -- at all (no column, no left border) there is none to replace or drop
+    if right != [] && inner != [] then pure (fields.dropLast ++ [right])
     else if right != [] then pure (fields ++ [right])
-    else if inner != [] then
-      (if fields.length = 0 then .error (.panic "emit.fields[:len-1]") else pure fields.dropLast)
+    else if inner != [] then pure fields.dropLast
     else pure fields
   pure (joinSP fields ++ [LF])
 
